@@ -1,33 +1,11 @@
-SPEC = {
-    "id": "C10",
-    "coq_targets": ["props/C10.vo", "corr/C10Corr.vo", "corr/Common.vo"],
-    "props_file": "props/C10.v",
-    "engines": [{
-        "name": "select", "pkg": "modules/l4proxy", "files": ["l4proxy/c10_test.go"], "run": "^TestVerifC10$",
-        "corr": "C10Corr", "case_type": "c10case", "check": "check", "imports": ["From L4.model Require Import Select."],
-        "n_quick": 300, "n_thorough": 6000, "timeout": 900,
-    }],
-    "rule": "pools: a corpus of past failures, every pool of size 0..3 (quick) / 0..4 (thorough) over 8 upstream-state kinds "
-            "(idle, busy below limit, busy unlimited, unhealthy, passively failed, full, two healthy peers, two peers one full), "
-            "plus random pools of size 1..8 with 1..3 peers each; every policy is run on every pool with the math/rand results it "
-            "consumed recorded as oracle values; a case is non-trivial when the pool holds at least one available and one "
-            "unavailable upstream; distinct = distinct (policy, pool state, oracle values, answer) terms",
-    "trusted_base": [
-        "math/rand (seeded global source) is replayed by the harness to obtain the values Select consumed; net.SplitHostPort is used by the harness to extract the client IP",
-    ],
-    "modelled": [
-        "modules/l4proxy/loadbalancing.go: all six Select methods, leastConns, hostByHashing, hash (FNV-1a written out)",
-        "modules/l4proxy/upstream.go: available, healthy, full, totalConns, peer counters as integers",
-        "not modelled: atomicity of the counters (C08), Provision/Validate, Caddyfile parsing (C15)",
-    ],
-    "assumptions": [
-        "random_choose: choose >= 1 (Validate enforces >= 2); math/rand results are non-negative and Intn(m) < m",
-        "round_robin completeness is proved for counters that do not wrap inside one scan; the wrap case is the recorded finding C10:round_robin:wrap-*",
-        "least_conn minimality assumes connection counts are non-negative (C11 accounts for them)",
-    ],
-    "manifest": {
-        "technique": "Coq proof over an executable model of the six selection policies (soundness, completeness, no panic, earliest/minimal) + exhaustive/random differential run of the real Select methods against the model evaluated in Coq",
-        "level_text": "Theorems for pools of any size and any peer state (props/C10.v, 22 statements, no axioms) about model/Select.v, a line-by-line transcription of loadbalancing.go/upstream.go with math/rand as an explicit oracle; the model is tied to the code by evaluating it inside Coq on every pool of size <=3 (quick) / <=4 (thorough) over 8 upstream-state kinds plus random pools up to 8, with the exact random draws the implementation consumed, and a direct oracle of the property text is evaluated on every implementation answer.",
-        "level_note": "Trusted: Coq kernel, the Go harness (pool construction through unexported fields, replay of math/rand), model written by hand. Counters are sequential integers here (atomicity is C08). round_robin completeness/cycle is proved only without uint32 wrap; the wrap case is a recorded finding.",
-    },
-}
+SPEC = {'id': 'C10',
+ 'manifest': {'technique': 'Coq proof over an executable model of the six selection policies (soundness, completeness, no panic, earliest/minimal) + '
+                           'exhaustive/random differential run of the real Select methods against the model evaluated in Coq',
+              'level_text': 'Theorems for pools of any size and any peer state (props/C10.v, 22 statements, no axioms) about model/Select.v, a '
+                            'line-by-line transcription of loadbalancing.go/upstream.go with math/rand as an explicit oracle; the model is tied to '
+                            'the code by evaluating it inside Coq on every pool of size <=3 (quick) / <=4 (thorough) over 8 upstream-state kinds '
+                            'plus random pools up to 8, with the exact random draws the implementation consumed, and a direct oracle of the property '
+                            'text is evaluated on every implementation answer.',
+              'level_note': 'Trusted: Coq kernel, the Go harness (pool construction through unexported fields, replay of math/rand), model written '
+                            'by hand. Counters are sequential integers here (atomicity is C08). round_robin completeness/cycle is proved only '
+                            'without uint32 wrap; the wrap case is a recorded finding.'}}
